@@ -212,9 +212,11 @@ class ExpressionManager(object):
                 "2 FNode in the same expression have different environments"
             )
             n = up.model.fnode.FNode(content, self._next_free_id, self.environment)
+            # Check well-formedness before registering the node: an ill-typed
+            # expression must be rejected every time, not only the first time.
+            self.environment.type_checker.get_type(n)
             self._next_free_id += 1
             self.expressions[content] = n
-            self.environment.type_checker.get_type(n)
             return n
 
     def And(
